@@ -160,6 +160,14 @@ def check_result(case):
             else:
                 if observe.cyto(data["dag"]) != observe.cyto(tab) or observe.cyto(data["column"]) != observe.cyto(col):
                     problems.append(("route", {"what": "route export differs from runner export"}))
+                # the verbose text (per-statement blocks, then the same summary)
+                vtext = data.get("verbose")
+                if isinstance(vtext, str):
+                    vsec = parse_summary(vtext.split("Summary:")[-1])
+                    for name, want in (("Source Tables:", S), ("Target Tables:", T), ("Intermediate Tables:", I)):
+                        if vsec[name] != want:
+                            problems.append(("summary", {"section": name, "verbose_summary": vsec[name][:8], "accessor": want[:8]}))
+                            break
         except Exception as e:  # noqa
             problems.append(("route", {"exc": repr(e)[:200]}))
     return problems, stats
